@@ -232,6 +232,21 @@ op('rot', [(('S',), 'R3')], lambda o, p: ROTF[int(p['axis'])](o[0]) if p.get('fo
    lambda a, p, ts: ['rot', int(p['axis']), a[0]])
 op('rotate', [(('R3', 'V3'), 'V3')], lambda o, p: o[0].rotate(o[1]) if p.get('form') != 'mul' else o[0] * o[1],
    lambda a, p, ts: ['matmul', 3, 3, 1, a[0], a[1]])
+def _tr(n, x, t):
+    return ['transpose', n, n, x] if t else x
+
+
+# Matrix3.unrotate = Qube.dot(self, arg, -2, 0): the transposed matrix times the vector / matrix
+op('unrotate', [(('R3', 'V3'), 'V3')], lambda o, p: o[0].unrotate(o[1]), lambda a, p, ts: ['matmul', 3, 3, 1, ['transpose', 3, 3, a[0]], a[1]])
+op('unrotate_m', [(('R3', 'M3'), 'M3')], lambda o, p: o[0].unrotate(o[1]), lambda a, p, ts: ['matmul', 3, 3, 3, ['transpose', 3, 3, a[0]], a[1]])
+# Qube.dot with explicit numerator axes: matrix . vector and matrix . matrix, every axis pair
+op('mdot', [(('M3', 'V3'), 'V3'), (('M2', 'V2'), 'V2'), (('R3', 'V3'), 'V3')],
+   lambda o, p: Qube.dot(o[0], o[1], int(p['a1']), int(p['a2']), (Vector3, Vector)),
+   lambda a, p, ts: ['matmul', MN[ts[0]], MN[ts[0]], 1, _tr(MN[ts[0]], a[0], int(p['a1']) % 2 == 0), a[1]])
+op('mmdot', [(('M3', 'M3'), 'M3'), (('M2', 'M2'), 'M2'), (('R3', 'M3'), 'M3')],
+   lambda o, p: Qube.dot(o[0], o[1], int(p['a1']), int(p['a2']), (Matrix,)),
+   lambda a, p, ts: ['matmul', MN[ts[0]], MN[ts[0]], MN[ts[0]], _tr(MN[ts[0]], a[0], int(p['a1']) % 2 == 0),
+                     _tr(MN[ts[0]], a[1], int(p['a2']) % 2 == 1)])
 op('rmul', [(('R3', 'R3'), 'R3')], lambda o, p: o[0] * o[1], lambda a, p, ts: ['matmul', 3, 3, 3, a[0], a[1]])
 op('rT', [(('R3',), 'R3')], lambda o, p: o[0].reciprocal() if p.get('form') == 'recip' else o[0].T,
    lambda a, p, ts: ['transpose', 3, 3, a[0]])
